@@ -62,7 +62,7 @@ def pendSum (l : List Tracker) : Nat := ((l.filter (fun t => t.status == .pendin
 /-- The exceptions a call may legitimately raise to its caller. -/
 def Legit (c : Cfg) (s : St) : Exc → Prop
   | .task id => id ∈ s.failIds ∧ s.base ≤ id ∧ id < s.base + s.spec.n
-  | .iter pos => ((pos : Nat) : Int) = (s.base : Int) + s.spec.iterfail
+  | .iter pos => 0 ≤ s.spec.iterfail ∧ ((pos : Nat) : Int) = (s.base : Int) + s.spec.iterfail
   | .timeout => 0 ≤ c.timeout
   | _ => False
 
@@ -115,6 +115,18 @@ structure InvL (c : Cfg) (t0 : Nat) (s : St) : Prop where
   pre_mode : c.pdMode = 1 → s.preLeft = none
   orig_exh : c.pdMode ≠ 1 → s.origAlive = false → s.aborting = false →
     s.ready = [] ∧ s.srcDead = true
+
+/-- Number of parked (submitted, not completed) batches of the running call. -/
+def ownParked (t0 : Nat) (s : St) : Nat := (s.parked.filter (fun i => decide (t0 ≤ i))).length
+
+/-- Size bounds (C09): every batch is at most `bmax` long, the look-ahead queue holds at most `n_jobs · bmax`
+tasks, and the input position is paid for by `pre_dispatch` plus `n_jobs · bmax` per completed task. -/
+structure InvB (c : Cfg) (t0 : Nat) (s : St) : Prop where
+  items_le : ∀ i, t0 ≤ i → i < s.trk.length → (getTrk s i).items.length ≤ bmax c
+  ready_le : ∀ b ∈ s.ready, b.length ≤ bmax c
+  ready_tot : s.ready.flatten.length ≤ c.nj * bmax c
+  budget : c.pdMode ≠ 1 → ∃ r, s.preLeft = some r ∧
+    s.srcPos + r ≤ c.pd + s.nCompleted * (c.nj * bmax c)
 
 /-- While `_iterating` is set (and the call is not aborting) some batch of this call is still pending: the
 completion callback that will either dispatch more or clear the flag is yet to come. -/
